@@ -20,7 +20,7 @@ ASSUMPTIONS = [
 REQUIRED = ["pairs_with_identical_ids", "pairs_equal", "pairs_different", "difference_at_child_position_ge1", "difference_at_depth_ge2", "symmetric_checked"]
 EXHAUSTIVE = {"quick": False, "thorough": False}
 
-KINDS = ("name", "content", "content_none", "tail", "prefix", "attr_add", "attr_del", "attr_val", "extras_add", "extras_val",
+KINDS = ("attr_type", "name", "content", "content_none", "tail", "prefix", "attr_add", "attr_del", "attr_val", "extras_add", "extras_val",
          "ns_add", "ns_del", "ns_val", "child_append", "child_insert0", "child_remove_last", "child_remove_first", "child_swap")
 
 
@@ -57,7 +57,15 @@ def ask(ctx, a, b, wit_fn, what):
 
 def apply_difference(rng, n, kind):
     """Introduces one difference at node n (of the copy). Returns False if not applicable."""
-    if kind == "name":
+    if kind == "attr_type":
+        # same text, other type: '2' vs 2, 'None' vs None, 'True' vs True, '1.5' vs 1.5
+        conv = {"2": 2, "10": 10, "None": None, "True": True, "1.5": 1.5}
+        ks = [k for k, v in n.attributes.items() if isinstance(v, str) and v in conv]
+        if not ks:
+            return False
+        k = rng.choice(ks)
+        n.add_attribute(k, conv[n.attributes[k]])
+    elif kind == "name":
         n.name = n.name + "x"
     elif kind == "content":
         n.content = (n.content or "") + "!"
@@ -216,6 +224,13 @@ def run(ctx, params):
         c = t.copy()
         ask(ctx, t, c, lambda: {"tree": snapshot.to_plain(t), "kind": "fresh-copy"}, "fresh-copy")
         ctx.count("fresh_copies")
+        try:
+            if not (Node.is_equal(t, c) and Node.is_equal(c, t)):
+                # by the statement itself, whatever the field-by-field reference says about the two objects
+                ctx.violation("fresh-copy-not-equal", "a deep copy does not compare equal to its original right after copy(): "
+                              + str(snapshot.first_value_difference(snapshot.value(t), snapshot.value(c))), {"tree": snapshot.to_plain(t), "kind": "fresh-copy"})
+        except Exception:
+            pass
         emlkit.discard(c)
         sweep(ctx, t, exhaustive=(size <= 12 and ctx.tier == "thorough") or size <= 6)
         if prev is not None:
